@@ -3,4 +3,5 @@ CONSTANTS
   N = 5
   GMaxDepth = 1000
 INVARIANT ResyncRefinesIntended
+INVARIANT TablesAgree
 CHECK_DEADLOCK FALSE
